@@ -179,3 +179,22 @@ def c19_corners(ctx, shape, counts):
                 if divisible:
                     mid = cs.coordinate(np.array([(gc[0][0] + gc[2][0]) / 2, (gc[0][1] + gc[2][1]) / 2]))
                     ctx.ensure(f"overlap {rel}, patch ({i},{j}): physical centre is the midpoint of the voxel corners", eq(list(cc), list(mid)))
+
+
+@ob("C19.float_ceil", kind="B", cases=[dict(n=15, c=5, d=1.1), dict(n=21, c=7, d=0.9), dict(n=39, c=13, d=1.0), dict(n=35, c=5, d=1.0), dict(n=12, c=4, d=1.0), dict(n=30, c=10, d=1.1)],
+    funcs=FUNCS, samples=(1, 1), tol=0.0,
+    cite="the patches' interiors tile the image ...; the advertised patch ... corners in voxel and physical units agree with each other under the base image's coordinate system",
+    note="bounded, listed inputs: extents DIVISIBLE by the patch count for which the float evaluation of ceil((d / c) / (d / n)) overshoots n / c by one (the proofs treat machine "
+         "arithmetic as real arithmetic, A1, and their companions skip such samples): recorded known finding")
+def c19_float_ceil(ctx, n, c, d):
+    img = darsia.ScalarImage(np.arange(n * 2, dtype=float).reshape(n, 2), dimensions=[d, 1.0])
+    P = darsia.Patches(img, [c, 1])
+    rows = [int(P.patches[i][0].img.shape[0]) for i in range(c)]
+    overshoot = int(P.pv[0]) != n // c
+    ctx.ensure(f"{n} voxels in {c} patches: every patch has n / c = {n // c} rows (got {rows})", rows == [n // c] * c)
+    ctx.ensure("re-assembly reproduces the image", bool(np.array_equal(P.assemble().img, img.img)))
+    vox = [int(np.asarray(P.global_corners_voxels[i][0])[0][0]) for i in range(c)]
+    # row of the advertised physical corner, to the NEAREST voxel boundary (the corner coordinates themselves carry round-off)
+    phys = [int(round(float((img.origin[1] - np.asarray(P.global_corners_cartesian[i][0])[0][1]) / img.voxel_size[0]))) for i in range(c)]
+    ctx.ensure(f"advertised voxel corners {vox} == voxels of the advertised physical corners {phys}", vox == phys)
+    ctx.witness("float_ceil_overshoot_of_patch_size", overshoot)
